@@ -669,9 +669,19 @@ class Splicer:
             if ls.kw in ("foreach", "all"):
                 continue
             same = lps if ls.kw == "any" else [l for l in lps if l["kw"] == ls.kw]
-            if ls.ordinal > len(same):
+            plain_ = [x for x in fs.loops if x.kw not in ("foreach", "all")]
+            if ls.ordinal > len(same) and len(lps) == len(plain_) and ls.kw == "for" and \
+                    re.match(r"^while let Some \( .* \) = [a-z_][a-z_0-9]* \. next \( \)$", rs.norm(toks, lps[plain_.index(ls)]["at"], lps[plain_.index(ls)]["brace"])):
+                # the `for` loop is still there, written as `let mut it = E; while let Some(x) = it.next()` (which is what R14 makes
+                # of it anyway): the contract follows it by position. Other keyword changes are not followed: a `loop` turned into
+                # `while let` needs exit clauses its contract does not have (measured: that transfer produced a false alarm)
+                same = lps
+                ordinal_ = plain_.index(ls) + 1
+            else:
+                ordinal_ = ls.ordinal
+            if ordinal_ > len(same):
                 raise Undecided("loop anchor lost: %s %s#%d [demotable fn=%s]" % (key, ls.kw, ls.ordinal, key))
-            l = same[ls.ordinal - 1]
+            l = same[ordinal_ - 1]
             l["spec"] = ls
         if any("exec_allows_no_decreases_clause" in a_ for a_ in fs.fnattr) and any(l.get("spec") is None for l in lps):
             # elsewhere Verus itself refuses a loop without `decreases` (=> auto-demotion => exit 2); where that refusal is
@@ -693,7 +703,17 @@ class Splicer:
                 self.insert_after(l["in_idx"], " %s:" % ls.iter)
                 g.hit("R7")
             if ls is not None:
-                self.insert_before(l["brace"], "\n" + clause_lines(ls.clauses, indent="                    ") + "                ")
+                cl_ = ls.clauses
+                if l["kw"] == "while" and any("__it" in c_.expr for c_ in cl_):
+                    hdr_ = rs.norm(toks, l["at"], l["brace"])
+                    m_ = re.match(r"^while let Some \( .* \) = ([a-z_][a-z_0-9]*) \. next \( \)$", hdr_)
+                    if m_ and m_.group(1) != "__it":
+                        import copy as _copy
+                        cl_ = _copy.deepcopy(cl_)
+                        for c_ in cl_:
+                            c_.expr = re.sub(r"(?<![A-Za-z0-9_.])__it(?![A-Za-z0-9_])", m_.group(1), c_.expr)
+                        g.meta.setdefault("param_renames", []).append({"fn": key, "loop": ls.ordinal, "renamed": {"__it": m_.group(1)}})
+                self.insert_before(l["brace"], "\n" + clause_lines(cl_, indent="                    ") + "                ")
         # R18: in the tail expression of the function, `RECV.map(|P| E)` -> `match RECV { Some(P) => Some(E), None => None }`
         #      and `RECV.or_else(|| E)` -> `match RECV { Some(__v) => Some(__v), None => E }` for closure LITERALS: libcore's
         #      definitions of Option::map / Option::or_else with the literal beta-reduced. Tail position only, so that a `?`
